@@ -82,7 +82,7 @@ pub struct SvcCase {
 
 fn two_class_data(nmin: usize, nmax: usize) -> BoxedStrategy<(String, Rows, Vec<f64>)> {
     (nmin..=nmax, 1usize..=5, prop_oneof![Just(0.3), Just(1.5), Just(4.0)], any::<bool>())
-        .prop_flat_map(|(n, p, sep, pm1)| (vec((any::<bool>(), vec(unit(), p)), n), vec(unit(), p), Just(sep), Just(pm1), prop_oneof![Just((-1.0, 1.0)), Just((0.0, 1.0)), Just((2.0, 7.5)), Just((-3.0, -1.0))]))
+        .prop_flat_map(|(n, p, sep, pm1)| (vec((any::<bool>(), vec(unit(), p)), n), vec(unit(), p), Just(sep), Just(pm1), prop_oneof![Just((-1.0, 1.0)), Just((0.0, 1.0)), Just((2.0, 7.5)), Just((-3.0, -1.0)), Just((1.0, 1.0 + f64::EPSILON)), Just((-2f64.powi(-70), 3.0 * 2f64.powi(-70))), Just((0.0, 1e-16))]))
         .prop_map(|(rows, dir, sep, pm1, pair)| {
             let n = rows.len();
             let mut cls: Vec<bool> = rows.iter().map(|r| r.0).collect();
@@ -355,7 +355,7 @@ pub fn property() -> Property {
     Property {
         id: "C10",
         quick_mult: 48,
-        rule: "two-class sets of 4..50 (quick) / 80 (thorough) rows, 1..5 features, class means 0.3 / 1.5 / 4 noise widths apart, labels {-1,1} or the pairs (0,1), (2,7.5), (-3,-1); C in 1e-1..1e2, epoch 1..4, tol 1e-4..1e-2; linear, RBF (gamma 1e-2..10), polynomial (degree 1..3, coef0 >= 0) and sigmoid kernels; the visiting order of every fit comes from a generated 64-bit schedule seed (hook). svc_orders: 4..5 rows fitted under 60 (quick) / 400 (thorough) different seeds. SVR: 4..40 / 80 pairwise distinct rows, eps 0..0.5, PSD kernels only. Kernels: Gram matrices of 2..14 points. non-trivial = >= 3 support vectors with at least one at the bound and one strictly inside (SVC / SVR), >= 3 points (kernels); distinct = distinct serialised case",
+        rule: "two-class sets of 4..50 (quick) / 80 (thorough) rows, 1..5 features, class means 0.3 / 1.5 / 4 noise widths apart, labels {-1,1} or the pairs (0,1), (2,7.5), (-3,-1), (1, 1+eps), (-2^-70, 3*2^-70), (0, 1e-16); C in 1e-1..1e2, epoch 1..4, tol 1e-4..1e-2; linear, RBF (gamma 1e-2..10), polynomial (degree 1..3, coef0 >= 0) and sigmoid kernels; the visiting order of every fit comes from a generated 64-bit schedule seed (hook). svc_orders: 4..5 rows fitted under 60 (quick) / 400 (thorough) different seeds. SVR: 4..40 / 80 pairwise distinct rows, eps 0..0.5, PSD kernels only. Kernels: Gram matrices of 2..14 points. non-trivial = >= 3 support vectors with at least one at the bound and one strictly inside (SVC / SVR), >= 3 points (kernels); distinct = distinct serialised case",
         assumptions: vec![
             "the classifier's random visiting order is replaced by a seeded StdRng under cfg(smartcore_verif); with the hook off it is thread_rng".into(),
             "SVR optimality and termination are asserted for the positive semi-definite kernels only (linear, RBF, polynomial with integer degree and coef0 >= 0); KKT tolerance is tol + 1e-9*max|y|".into(),
